@@ -80,6 +80,13 @@ func (cliStream) Generate(rng *rand.Rand, tier string, emit func(Case)) {
 		for _, c := range cmds {
 			emit(Case{"op": "list", "cmd": c, "layout": lm, "schema": schemaChoice, "dirstyle": []string{"", "trailing", "double", "dot"}[(i+len(c))%4]})
 		}
+		// the detailed forms: --verbose with every --output choice (also one the tool does not know), vendor
+		// arguments of `specs` (present in the cache / unknown), and the directory listing
+		fm := []string{"", "json", "yaml", "xml"}[i%4]
+		emit(Case{"op": "list", "cmd": "devices", "verbose": true, "format": hx(fm), "layout": lm, "schema": schemaChoice, "dirstyle": ""})
+		emit(Case{"op": "list", "cmd": "specs", "verbose": true, "format": hx([]string{"json", "", "xml", "yaml"}[i%4]), "layout": lm, "schema": schemaChoice, "dirstyle": ""})
+		emit(Case{"op": "list", "cmd": "specs", "verbose": i%2 == 0, "format": hx(""), "args": hxList([][]string{{"v1.com"}, {"nosuch.vendor"}, {"v2.com", "v1.com"}}[i%3]), "layout": lm, "schema": schemaChoice, "dirstyle": ""})
+		emit(Case{"op": "list", "cmd": "dirs", "layout": lm, "schema": schemaChoice, "dirstyle": []string{"", "trailing", "double", "dot"}[i%4]})
 		emit(Case{"op": "inject", "layout": lm, "patterns": hxList([][]string{{"*/*"}, {"v1.com/*"}, {"*/*=d0", "v2.com/c1=d1"}, {"nomatch*"}, {"*"}, {"*/*", "*/*=d0"}, {"v1.com/c1=d0", "v1.com/*", "*/c1=d0"},
 			{"*/*=d1", "*/*=d0", "*/*=d1"}, {"v?.com/c[12]=d*", "*/c1=*"}}[rng.Intn(9)]),
 			"ocikind": rng.Intn(3), "format": []string{"json", "yaml"}[rng.Intn(2)]})
@@ -275,7 +282,47 @@ func (cliStream) Execute(c Case) {
 				cs = []any{}
 			}
 			lib["classes"] = cs
-			lines, exit := runTool(nil, "cdi", "-d", dirArg, "-s", schemaArg, c["cmd"].(string))
+			lib["dirs"] = hxList(cache.GetSpecDirectories())
+			both := func(v any) (string, string) {
+				j, _ := json.MarshalIndent(v, "", "  ")
+				y, _ := yaml3Marshal(v)
+				return hx(string(j)), hx(string(y))
+			}
+			verbose, _ := c["verbose"].(bool)
+			if verbose || c["args"] != nil {
+				dv := []any{}
+				for _, name := range cache.ListDevices() {
+					dev := cache.GetDevice(name)
+					sp := dev.GetSpec()
+					e := sp.ContainerEdits
+					dj, dy := both(dev.Device)
+					ej, ey := both(sp.ContainerEdits)
+					dv = append(dv, map[string]any{"name": hx(dev.GetQualifiedName()), "path": hx(sp.GetPath()), "devjson": dj, "devyaml": dy,
+						"nglobal": len(e.Env) + len(e.DeviceNodes) + len(e.Hooks) + len(e.Mounts), "editsjson": ej, "editsyaml": ey})
+				}
+				lib["devviews"] = dv
+				sv := []any{}
+				for _, v := range cache.ListVendors() {
+					ss := []any{}
+					for _, sp := range cache.GetVendorSpecs(v) {
+						sj, sy := both(sp.Spec)
+						ss = append(ss, map[string]any{"path": hx(sp.GetPath()), "json": sj, "yaml": sy})
+					}
+					sv = append(sv, map[string]any{"vendor": hx(v), "specs": ss})
+				}
+				lib["specviews"] = sv
+			}
+			targs := []string{"-d", dirArg, "-s", schemaArg, c["cmd"].(string)}
+			if verbose {
+				targs = append(targs, "-v")
+			}
+			if f, ok := c["format"].(string); ok && unhx(f) != "" {
+				targs = append(targs, "-o", unhx(f))
+			}
+			if c["args"] != nil {
+				targs = append(targs, unhxList(c["args"])...)
+			}
+			lines, exit := runTool(nil, "cdi", targs...)
 			obs["stdout"], obs["exit"] = hxList(lines), exit
 			return
 		}
@@ -310,6 +357,24 @@ func (cliStream) Execute(c Case) {
 			devs = append(devs, d)
 		}
 		sort.Strings(devs)
+		listed := cache.ListDevices()
+		matrix := []any{}
+		for _, d := range listed {
+			row := []any{}
+			for _, p := range patterns {
+				ok, err := filepath.Match(p, d)
+				switch {
+				case err != nil:
+					row = append(row, 2)
+				case ok:
+					row = append(row, 1)
+				default:
+					row = append(row, 0)
+				}
+			}
+			matrix = append(matrix, row)
+		}
+		lib["listed"], lib["matrix"], lib["selected"] = hxList(listed), matrix, hxList(devs)
 		want := mk()
 		_, lerr := cache.InjectDevices(want, devs...)
 		lib["err"] = lerr != nil || len(keys) > 0
